@@ -25,7 +25,7 @@
 (* hist records the schedule (who moved) that the harness replays into the *)
 (* real lockers; it is hidden by the VIEW in exhaustive runs.              *)
 (***************************************************************************)
-EXTENDS Integers, Sequences, FiniteSets, TLC, Json, LockObs
+EXTENDS Integers, Sequences, FiniteSets, TLC, Json, SequencesExt, LockObs
 
 CONSTANTS N, MaxTime, MaxSkew, Budget, Variant, Faults, MaxToggle, Removal, Remotes, MaxWaits, HistMax, Emit,
           MaxAtt,    \* attempts of newLock per Lock() call that the model follows (>= 2)
@@ -355,8 +355,7 @@ Spec == Init /\ [][Next]_vars
 (* the properties, as the observation predicates of LockObs over the model state *)
 
 B2I(b) == IF b THEN 1 ELSE 0
-RECURSIVE SetToSeq0(_)
-SetToSeq0(S) == IF S = {} THEN <<>> ELSE LET e == CHOOSE e \in S : TRUE IN <<e>> \o SetToSeq0(S \ {e})
+SetToSeq0(S) == SetToSeq(S)
 
 Believes(p) == pr[p].pc \in HoldStates
 \* times are reported on the reference clock (a lock file carries its owner's clock)
